@@ -20,7 +20,7 @@ from ._impl import Matcher, Mismatch
 def LabelledMismatches(mismatches, details=None):
     """A collection of mismatches, each labelled."""
     return MismatchesAll(
-        (PrefixedMismatch(k, v) for (k, v) in sorted(mismatches.items())), wrap=False
+        [PrefixedMismatch(k, v) for (k, v) in sorted(mismatches.items())], wrap=False
     )
 
 
